@@ -56,7 +56,7 @@ WNew == /\ IsA("obs.w_new")
              /\ f.ni = Cardinality({i \in Incs : act[i].st # "none"}) /\ mon.hook = 0
              THEN Adv /\ KeepPre /\ E0 /\ UNCHANGED vars        \* the initial workers, started by pre_start
              ELSE Buffer(Fx("spawn", Ev.wid, Ev.inc, ""))
-Discard == IsA("obs.discard") /\ Buffer(Fx("disc", Ev.id, 0, Ev.reason))
+Discard == IsA("obs.discard") /\ Buffer(Fx("disc", Ev.id, Ev.h, Ev.reason))
 \* the retry hook of a RetriableMessage fired (once per re-submission).  Either a worker that is being torn down dropped
 \* the job, or a factory handler did (an effect of that handler), or it sat in the mailbox / state of a factory that has ended
 \* (the hook fires, the re-submission fails)
@@ -144,7 +144,7 @@ TSubmit == /\ IsA("obs.submit") /\ Adv /\ KeepPre /\ E0
 TPost(m) == /\ Adv /\ KeepPre /\ E0 /\ fmq' = (IF Sent THEN Append(fmq, m) ELSE fmq) /\ UNCHANGED <<cfg, f, fsq, act, jb, now, mon>>
 Client == \/ IsA("obs.adjust") /\ TPost(Msg("adjust", Ev.n, 0, "", 0))
           \/ IsA("obs.drain") /\ TPost(Msg("drain", 0, 0, "", 0))
-          \/ IsA("obs.update") /\ TPost(Msg("update", Ev.lim, Ev.wc, Ev.mode, 0))
+          \/ IsA("obs.update") /\ TPost(Msg("update", Ev.lim, Ev.wc, Ev.mode, Ev.hg))
           \/ IsA("obs.q_sent") /\ TPost(Msg(Ev.kind, 0, 0, "", 0))
           \/ /\ IsA("obs.q_reply") /\ Adv /\ KeepPre /\ E0
              /\ IF Ev.d = 1 THEN /\ mon.ans # <<>> /\ Head(mon.ans) = Ev.v /\ mon' = [mon EXCEPT !.ans = Tail(@)]
